@@ -288,5 +288,5 @@ def replay(case, ctx):
         if case['helper'] == 'inject_warmup':
             return [Violation.from_json(v) for v in _inject((tuple(case['tfs']), case['length']))]
         return [Violation.from_json(v) for v in _helpers(([case['tf']], False))['viols'] if v['case'].get('length') == case['length']]
-    r = _session((case['tf'], tuple(case['data_tfs']), case['two_symbols'], case['length'], case['fill_at'], case['fast'], case['warmup_windows'], tuple(case['embedding'])))
+    r = _session((case['tf'], tuple(case['data_tfs']), case['two_symbols'], case['length'], case['fill_at'], case['fast'], case['warmup_windows'], tuple(case.get('embedding') or ctx.embedding)))
     return [Violation.from_json(v) for v in r['viols']]
